@@ -241,7 +241,7 @@ def check(run):
             run.replayed += 1
             has_custom = any(ln and ln[0][0] == 'tag' and ln[0][1].startswith('EDGE_DIST') for ln in lines) or shadow[n]
             text = render(lines, tab, rnd)
-            path = os.path.join(tmpdir, 'f%d.g2o' % n)
+            path = os.path.join(tmpdir, 'f%d.g2o' % (n // 2))        # two consecutive files share one path: a reader must read the current content
             with open(path, 'w', newline='') as f:
                 f.write(text)
             stats['files'] += 1
